@@ -179,16 +179,17 @@ func vxWriteLockHeld() bool {
 // ---- the SQL environment ---------------------------------------------------
 
 type vxSQLEnv struct {
-	log        []vx.SQLEvent
-	open       map[int]bool // transactions begun and not ended
-	lockTx     map[int]bool // transactions that executed the lock-table insert
-	committed  []int
-	badSQL     []string
-	closed     bool
-	faults     bool
-	pageSize   int64
-	onCkpt     func(mode string) // environment effect of a checkpoint (WAL restart etc.)
-	ckptFrames int64
+	log            []vx.SQLEvent
+	open           map[int]bool // transactions begun and not ended
+	lockTx         map[int]bool // transactions that executed the lock-table insert
+	committed      []int
+	lockAutocommit int // lock-table inserts executed outside any transaction
+	badSQL         []string
+	closed         bool
+	faults         bool
+	pageSize       int64
+	onCkpt         func(mode string) // environment effect of a checkpoint (WAL restart etc.)
+	ckptFrames     int64
 }
 
 var vxSQLWhitelist = []string{
@@ -242,6 +243,10 @@ func (e *vxSQLEnv) handle(ev vx.SQLEvent) vx.SQLResult {
 	}
 	switch {
 	case ev.SQL == `INSERT INTO _litestream_lock (id) VALUES (1);`:
+		if ev.Tx == 0 {
+			// outside a transaction the statement commits by itself: a permanent row
+			e.lockAutocommit++
+		}
 		e.lockTx[ev.Tx] = true
 	case ev.SQL == `PRAGMA journal_mode = wal;`:
 		return vx.SQLResult{Str: "wal", IsStr: true}
@@ -269,7 +274,7 @@ func vxNewSQLEnv(faults bool) *vxSQLEnv {
 // checks that hold after every entry point
 func (e *vxSQLEnv) check(db *DB) {
 	vx.Assert("only-whitelisted-sql", len(e.badSQL) == 0)
-	vx.Assert("nothing-ever-committed", len(e.committed) == 0)
+	vx.Assert("nothing-ever-committed", len(e.committed) == 0 && e.lockAutocommit == 0)
 	for id := range e.lockTx {
 		vx.Assert("lock-insert-transaction-rolled-back", !e.open[id])
 	}
